@@ -2,6 +2,7 @@
 # apply every behaviour-preserving refactoring under neutral/<id>-<k>/patch.diff to /repo, run the property's quick check
 # (expected exit 0), restore.  Any non-zero exit is a false alarm of the machinery.
 cd /verif
+export VERIF_EVIDENCE_DIR=/var/tmp/anemo-verif-matrix/evidence VERIF_REPLAY_DIR=/var/tmp/anemo-verif-matrix/replays; mkdir -p $VERIF_EVIDENCE_DIR $VERIF_REPLAY_DIR
 out=neutral/RESULTS.md
 echo "# Behaviour-preserving refactorings vs checks (quick tier, $(date -u +%F)); expected: exit 0" > $out
 echo "" >> $out
